@@ -2,6 +2,7 @@ package router
 
 import (
 	"context"
+	"net"
 	"crypto/tls"
 	"crypto/x509"
 	"errors"
@@ -171,5 +172,58 @@ func VerifH_C17_ConfiguredCAIsTheOnlyAnchor() {
 	verifrt.Assert(n == 1, "added exactly once")
 	if cfg.VerifyClientCert {
 		verifrt.Assert(c.ClientAuth == tls.RequireAndVerifyClientCert && c.ClientCAs == c.RootCAs, "client certificates are verified against that same pool")
+	}
+}
+
+// vRecListener is a bound listening socket: Accept blocks until it is closed.
+type vRecListener struct {
+	addr     string
+	closedCh chan struct{}
+	closed   int
+}
+
+func (l *vRecListener) Accept() (net.Conn, error) {
+	<-l.closedCh
+	return nil, errVNet
+}
+func (l *vRecListener) Close() error {
+	l.closed++
+	if l.closed == 1 {
+		close(l.closedCh)
+	}
+	return nil
+}
+func (l *vRecListener) Addr() net.Addr { return &net.TCPAddr{IP: net.IP{127, 0, 0, 1}, Port: 5300} }
+
+// VerifH_C18_FailedListenerLeavesNoSocket: "a start-up error (… bad certificate …) is reported as an error after
+// releasing what had already been started … leaves no listening socket open" — including the failing listener's OWN
+// socket, in whatever order it binds and loads its certificate. Configuration: a plain tcp server and a tls server without
+// certificate (either order); the socket layer is a recording stub. run() fails, and every socket that was ever
+// bound — by the healthy server and by the failing one — has been closed when it returns.
+func VerifH_C18_FailedListenerLeavesNoSocket() {
+	verifrt.Unwind(200)
+	verifrt.SchedBound(1)
+	verifrt.NoTimers()
+	verifrt.CtxNoExpiry = true
+	var bound []*vRecListener
+	verifrt.Redirect("(*net.ListenConfig).Listen", func(lc *net.ListenConfig, ctx context.Context, network, address string) (net.Listener, error) {
+		l := &vRecListener{addr: address, closedCh: make(chan struct{})}
+		bound = append(bound, l)
+		return l, nil
+	})
+	good := ServerConfig{Protocol: "tcp", Listen: "127.0.0.1:5301"}
+	bad := ServerConfig{Protocol: "tls", Listen: "127.0.0.1:5302"}
+	cfg := &Config{}
+	if verifrt.Bool("bad-first") {
+		cfg.Servers = []ServerConfig{bad, good}
+	} else {
+		cfg.Servers = []ServerConfig{good, bad}
+	}
+	r, err := run(context.Background(), cfg)
+	verifrt.Quiesce()
+	verifrt.Reach("returned")
+	verifrt.Assert(err != nil && r == nil, "a listener without certificate is a start-up error, not a panic")
+	for _, l := range bound {
+		verifrt.Assert(l.closed >= 1, "no listening socket of the proxy stays open after a failed start-up — neither an earlier listener's nor the failing listener's own")
 	}
 }
